@@ -16,13 +16,28 @@ def _work(item):
         return {"program": f"{spec['fam']} {spec['which']} [{spec['relation']}] {spec['op1']} || {spec['op2']}", "verdict": "not-explored (time budget)", "queries": 0, "solver_s": 0, "replays": 0, "events": 0, "witnesses": [], "spec": spec}
     fam = hlib.FAM[spec["fam"]]
     prog = conc.Prog(fam, spec["which"], spec["relation"], spec["op1"], spec["op2"], ctx=tuple(spec["ctx"]) if spec.get("ctx") else None)
+    is_known = None
+    if spec.get("_mod") and spec.get("_pid"):
+        try:
+            import importlib
+
+            hmod = importlib.import_module(spec["_mod"])
+            F = findings.Findings()
+            pub = {k: v for k, v in spec.items() if not k.startswith("_")}
+            def is_known(viol):
+                try:
+                    return F.match(spec["_pid"], hmod.fingerprint({"spec": pub, "violation": viol})) is not None
+                except Exception:
+                    return False
+        except Exception:
+            is_known = None
     try:
-        r = conc.decide_pair(prog, max_replays=spec.get("max_replays", 8), variants=spec.get("variants", False), check_deadlock=spec.get("deadlock", True), cycles=spec.get("cycles", True))
+        r = conc.decide_pair(prog, max_replays=spec.get("max_replays", 8), variants=spec.get("variants", False), check_deadlock=spec.get("deadlock", True), cycles=spec.get("cycles", True), is_known=is_known)
     except BaseException as e:  # noqa
         import traceback
 
         r = {"program": prog.label(), "verdict": "error", "error": "".join(traceback.format_exception(type(e), e, e.__traceback__))[-1500:], "queries": 0, "solver_s": 0, "replays": 0, "events": 0, "witnesses": []}
-    r["spec"] = spec
+    r["spec"] = {k: v for k, v in spec.items() if not k.startswith("_")}
     try:
         env = hlib.env_model.ENV
         if env is not None and env._tmp:
@@ -41,7 +56,7 @@ def run(pid, tier, seed, specs, mod, fingerprint, emit=True):
     if not os.environ.get("VF_DEADLINE_TS"):
         os.environ["VF_DEADLINE_TS"] = str(t0 + float(os.environ.get("VF_BUDGET_S", "1200" if tier == "quick" else "2400")))
     F = findings.Findings()
-    items = list(enumerate(specs))
+    items = list(enumerate([dict(sp, _pid=pid, _mod=getattr(fingerprint, "__module__", mod.__name__)) for sp in specs]))
     if seed:
         import random
 
